@@ -86,6 +86,8 @@ package dmap
 //@   ensures #pxat [C09]: !e.putConfig.HasEX && !e.putConfig.HasPX && !e.putConfig.HasEXAT && e.putConfig.HasPXAT ==> result == e.putConfig.PXAT / 1000000
 //@   ensures #default [C09]: !e.putConfig.HasEX && !e.putConfig.HasPX && !e.putConfig.HasEXAT && !e.putConfig.HasPXAT ==>
 //@                result == ite(e.timeout == 0, 0, (e.timeout + now()) / 1000000)
+//@   ensures #ttl_for: result == ttlFor(e.putConfig.HasEX, e.putConfig.EX, e.putConfig.HasPX, e.putConfig.PX, e.putConfig.HasEXAT, e.putConfig.EXAT,
+//@                e.putConfig.HasPXAT, e.putConfig.PXAT, e.timeout, now())
 //@   modifies nothing
 
 // Conditions of a conditional write, with the fragment lock held. A key that is dead counts as absent for
@@ -106,3 +108,209 @@ package dmap
 //@                !deadAt(e.fragment.storage.ttl[e.hkey], now()) ==> result == nil
 //@   ensures #err_kind: result == nil || result == ErrKeyFound || result == ErrKeyNotFound
 //@   modifies EvictedTotal.counter
+
+// ttlFor: the expiry a write with these options gets when the clock reads t (mirrors prepareTTL's cases).
+//@ pure func ttlFor(hasEX bool, ex int64, hasPX bool, px int64, hasEXAT bool, exat int64, hasPXAT bool, pxat int64, timeout int64, t int) int64 =
+//@     ite(hasEX, (ex + t) / 1000000, ite(hasPX, (px + t) / 1000000, ite(hasEXAT, exat / 1000000, ite(hasPXAT, pxat / 1000000,
+//@         ite(timeout == 0, 0, (timeout + t) / 1000000)))))
+
+// Writing an entry into the fragment named by e (fragment lock held). With OnlyUpdateTTL only the expiry
+// (and timestamp) of an existing key changes; otherwise the entry replaces whatever was stored.
+//@ func (dm *DMap) putEntryOnFragment(e *env, nt storage.Entry) error
+//@   props C09 C05
+//@   flag termination
+//@   requires #env: e != nil && e.putConfig != nil && e.fragment != nil && e.fragment.storage != nil && nt != nil
+//@   ensures #expire_keeps_value [C09]: e.putConfig.OnlyUpdateTTL && result == nil ==> old(e.fragment.storage.has)[e.hkey] &&
+//@                e.fragment.storage.ttl == update(old(e.fragment.storage.ttl), e.hkey, nt.ttl) &&
+//@                e.fragment.storage.val == old(e.fragment.storage.val) && e.fragment.storage.key == old(e.fragment.storage.key) &&
+//@                e.fragment.storage.has == old(e.fragment.storage.has)
+//@   ensures #expire_missing [C09]: e.putConfig.OnlyUpdateTTL && !old(e.fragment.storage.has)[e.hkey] ==> result == ErrKeyNotFound
+//@   ensures #stored [C09]: !e.putConfig.OnlyUpdateTTL && result == nil ==> e.fragment.storage.has == setAdd(old(e.fragment.storage.has), e.hkey) &&
+//@                e.fragment.storage.val == update(old(e.fragment.storage.val), e.hkey, bstr(nt.value)) &&
+//@                e.fragment.storage.ttl == update(old(e.fragment.storage.ttl), e.hkey, nt.ttl) &&
+//@                e.fragment.storage.key == update(old(e.fragment.storage.key), e.hkey, nt.key) &&
+//@                e.fragment.storage.ts == update(old(e.fragment.storage.ts), e.hkey, nt.timestamp)
+//@   ensures #error_changes_nothing [C05]: result != nil ==> e.fragment.storage.has == old(e.fragment.storage.has) &&
+//@                e.fragment.storage.val == old(e.fragment.storage.val) && e.fragment.storage.ttl == old(e.fragment.storage.ttl) &&
+//@                e.fragment.storage.key == old(e.fragment.storage.key) && e.fragment.storage.ts == old(e.fragment.storage.ts)
+//@   modifies e.fragment.storage.has, e.fragment.storage.key, e.fragment.storage.val, e.fragment.storage.ttl, e.fragment.storage.ts,
+//@            e.fragment.storage.la, e.fragment.storage.count, e.fragment.storage.inuse, EntriesTotal.counter
+
+// The entry built for a write carries the key, the value bytes, the write timestamp and the expiry that
+// the options yield at some clock reading during the call.
+//@ func (dm *DMap) prepareEntry(e *env) storage.Entry
+//@   props C09
+//@   flag clock
+//@   flag termination
+//@   requires #env: e != nil && e.putConfig != nil && e.fragment != nil && e.fragment.storage != nil
+//@   requires #durations: 0 <= e.putConfig.EX && e.putConfig.EX < 4611686018427387904 && 0 <= e.putConfig.PX && e.putConfig.PX < 4611686018427387904 &&
+//@                0 <= e.putConfig.EXAT && 0 <= e.putConfig.PXAT && 0 <= e.timeout && e.timeout < 4611686018427387904
+//@   ensures #fresh: result != nil && fresh(result)
+//@   ensures #fields [C09]: result.key == e.key && result.value == e.value && result.timestamp == e.timestamp
+//@   ensures #ttl [C09]: result.ttl == ttlFor(e.putConfig.HasEX, e.putConfig.EX, e.putConfig.HasPX, e.putConfig.PX, e.putConfig.HasEXAT, e.putConfig.EXAT,
+//@                e.putConfig.HasPXAT, e.putConfig.PXAT, e.timeout, now())
+//@   modifies nothing
+
+// Callees of putOnCluster whose bodies are outside this property's reach (sync.Map access, eviction
+// sampling, replication over the network): only their footprint and result shape are assumed.
+//@ func (dm *DMap) loadOrCreateFragment(part *partitions.Partition) (*fragment, error)
+//@   props C09 C05
+//@   trusted
+//@   ensures #usable: result.1 == nil ==> result.0 != nil && result.0.storage != nil
+//@   modifies nothing
+
+//@ func (dm *DMap) loadFragment(part *partitions.Partition) (*fragment, error)
+//@   props C09 C05
+//@   trusted
+//@   ensures #usable: result.1 == nil ==> result.0 != nil && result.0.storage != nil
+//@   ensures #err_kind: result.1 == nil || result.1 == errFragmentNotFound
+//@   modifies nothing
+
+//@ func (dm *DMap) setLRUEvictionStats(e *env) error
+//@   props C09
+//@   trusted
+//@   ensures #only_deletes: forall g uint64 :: e.fragment.storage.has[g] ==> old(e.fragment.storage.has)[g]
+//@   ensures #rest_untouched: e.fragment.storage.val == old(e.fragment.storage.val) && e.fragment.storage.ttl == old(e.fragment.storage.ttl) &&
+//@                e.fragment.storage.key == old(e.fragment.storage.key) && e.fragment.storage.ts == old(e.fragment.storage.ts)
+//@   modifies e.fragment.storage.has, e.fragment.storage.key, e.fragment.storage.val, e.fragment.storage.ttl, e.fragment.storage.ts,
+//@            e.fragment.storage.la, e.fragment.storage.count, e.fragment.storage.inuse
+
+//@ func (dm *DMap) asyncPutOnCluster(e *env, nt storage.Entry) error
+//@   props C09
+//@   trusted
+//@   modifies e.fragment.storage.has, e.fragment.storage.key, e.fragment.storage.val, e.fragment.storage.ttl, e.fragment.storage.ts,
+//@            e.fragment.storage.la, e.fragment.storage.count, e.fragment.storage.inuse, EntriesTotal.counter
+
+//@ func (dm *DMap) syncPutOnCluster(e *env, nt storage.Entry) error
+//@   props C09
+//@   trusted
+//@   modifies e.fragment.storage.has, e.fragment.storage.key, e.fragment.storage.val, e.fragment.storage.ttl, e.fragment.storage.ts,
+//@            e.fragment.storage.la, e.fragment.storage.count, e.fragment.storage.inuse, EntriesTotal.counter
+
+// A write on the partition owner (C09, single-copy path stated exactly; with replicas the same entry is
+// handed to the replication routines). S below is the storage of the fragment the write lands in.
+//@ func (dm *DMap) putOnCluster(e *env) error
+//@   props C09
+//@   flag clock
+//@   flag termination
+//@   flag wired 3
+//@   requires #env: e != nil && e.putConfig != nil && dm.s != nil && dm.s.config != nil && dm.s.parts() && dm.s.primary.count > 0 && dm.s.backup.count > 0
+//@   requires #durations: 0 <= e.putConfig.EX && e.putConfig.EX < 4611686018427387904 && 0 <= e.putConfig.PX && e.putConfig.PX < 4611686018427387904 &&
+//@                0 <= e.putConfig.EXAT && 0 <= e.putConfig.PXAT && 0 <= e.timeout && e.timeout < 4611686018427387904
+//@   requires #default_ttl_range: dm.config != nil ==> 0 <= dm.config.ttlDuration && dm.config.ttlDuration < 4611686018427387904
+//@   ensures #timeout_default [C09]: e.timeout == ite(dm.config != nil && dm.config.ttlDuration != 0 && old(e.timeout) == 0 && result != ErrKeyFound && result != ErrKeyNotFound, dm.config.ttlDuration, old(e.timeout)) ||
+//@                result != nil
+//@   ensures #stored [C09]: result == nil && dm.s.config.ReplicaCount <= 1 && !e.putConfig.OnlyUpdateTTL ==>
+//@                e.fragment.storage.has[e.hkey] && e.fragment.storage.val[e.hkey] == bstr(e.value) && e.fragment.storage.key[e.hkey] == e.key &&
+//@                ttlFor(e.putConfig.HasEX, e.putConfig.EX, e.putConfig.HasPX, e.putConfig.PX, e.putConfig.HasEXAT, e.putConfig.EXAT,
+//@                       e.putConfig.HasPXAT, e.putConfig.PXAT, e.timeout, old(now())) <= e.fragment.storage.ttl[e.hkey] &&
+//@                e.fragment.storage.ttl[e.hkey] <= ttlFor(e.putConfig.HasEX, e.putConfig.EX, e.putConfig.HasPX, e.putConfig.PX, e.putConfig.HasEXAT, e.putConfig.EXAT,
+//@                       e.putConfig.HasPXAT, e.putConfig.PXAT, e.timeout, now())
+//@   ensures #plain_put_clears_expiry [C09]: result == nil && dm.s.config.ReplicaCount <= 1 && !e.putConfig.OnlyUpdateTTL &&
+//@                !e.putConfig.HasEX && !e.putConfig.HasPX && !e.putConfig.HasEXAT && !e.putConfig.HasPXAT && e.timeout == 0 ==> e.fragment.storage.ttl[e.hkey] == 0
+//@   ensures #expire_keeps_value [C09]: result == nil && dm.s.config.ReplicaCount <= 1 && e.putConfig.OnlyUpdateTTL ==>
+//@                e.fragment.storage.has[e.hkey] && e.fragment.storage.val[e.hkey] == pre(e.fragment.storage.val)[e.hkey] &&
+//@                ttlFor(e.putConfig.HasEX, e.putConfig.EX, e.putConfig.HasPX, e.putConfig.PX, e.putConfig.HasEXAT, e.putConfig.EXAT,
+//@                       e.putConfig.HasPXAT, e.putConfig.PXAT, e.timeout, old(now())) <= e.fragment.storage.ttl[e.hkey] &&
+//@                e.fragment.storage.ttl[e.hkey] <= ttlFor(e.putConfig.HasEX, e.putConfig.EX, e.putConfig.HasPX, e.putConfig.PX, e.putConfig.HasEXAT, e.putConfig.EXAT,
+//@                       e.putConfig.HasPXAT, e.putConfig.PXAT, e.timeout, now())
+//@   ensures #nx_only_if_absent [C09]: result == nil && e.putConfig.HasNX ==>
+//@                !pre(e.fragment.storage.has)[e.hkey] || deadAt(pre(e.fragment.storage.ttl)[e.hkey], now())
+//@   ensures #xx_only_if_live [C09]: result == nil && (e.putConfig.HasXX || e.putConfig.OnlyUpdateTTL) ==>
+//@                pre(e.fragment.storage.has)[e.hkey] && !deadAt(pre(e.fragment.storage.ttl)[e.hkey], old(now()))
+//@   ensures #nx_refused [C09]: e.putConfig.HasNX && e.fragment != nil && pre(e.fragment.storage.has)[e.hkey] && !deadAt(pre(e.fragment.storage.ttl)[e.hkey], now()) ==>
+//@                result != nil && e.fragment.storage.has == pre(e.fragment.storage.has) && e.fragment.storage.val == pre(e.fragment.storage.val) &&
+//@                e.fragment.storage.ttl == pre(e.fragment.storage.ttl)
+//@   ensures #xx_refused [C09]: (e.putConfig.HasXX || e.putConfig.OnlyUpdateTTL) && e.fragment != nil &&
+//@                (!pre(e.fragment.storage.has)[e.hkey] || deadAt(pre(e.fragment.storage.ttl)[e.hkey], old(now()))) ==>
+//@                result != nil && e.fragment.storage.has == pre(e.fragment.storage.has) && e.fragment.storage.val == pre(e.fragment.storage.val) &&
+//@                e.fragment.storage.ttl == pre(e.fragment.storage.ttl)
+//@   modifies e.fragment, e.timeout, EvictedTotal.counter, EntriesTotal.counter, every(e.fragment.storage.has), every(e.fragment.storage.key),
+//@            every(e.fragment.storage.val), every(e.fragment.storage.ttl), every(e.fragment.storage.ts), every(e.fragment.storage.la),
+//@            every(e.fragment.storage.count), every(e.fragment.storage.inuse)
+
+//@ func (dm *DMap) getPartitionByHKey(hkey uint64, kind partitions.Kind) *partitions.Partition
+//@   props C09 C16
+//@   flag termination
+//@   requires #svc: dm != nil && dm.s != nil && dm.s.parts() && dm.s.primary.count > 0 && dm.s.backup.count > 0
+//@   requires #kind: kind == partitions.PRIMARY || kind == partitions.BACKUP
+//@   ensures #nonnil: result != nil
+//@   modifies nothing
+
+// ---------------------------------------------------------------------------------------------------
+// C06: the newest copy wins. Versions are ordered by write timestamp, newest first.
+//@ func (dm *DMap) sortVersions$1(i int, j int) bool
+//@   props C06
+//@   flag termination
+//@   requires #idx: 0 <= i && i < len(versions) && 0 <= j && j < len(versions)
+//@   requires #elems: forall k int :: 0 <= k && k < len(versions) ==> versions[k] != nil && versions[k].entry != nil
+//@   ensures #less [C06]: result == (versions[i].entry.timestamp >= versions[j].entry.timestamp)
+//@   modifies nothing
+
+//@ func (dm *DMap) sortVersions(versions []*version) []*version
+//@   props C06
+//@   flag termination
+//@   requires #elems: forall k int :: 0 <= k && k < len(versions) ==> versions[k] != nil && versions[k].entry != nil
+//@   ensures #same_slice: result == versions
+//@   ensures #elems_kept: forall k int :: 0 <= k && k < len(result) ==> result[k] != nil && result[k].entry != nil
+//@   ensures #newest_first [C06]: forall a int, b int :: 0 <= a && a < b && b < len(result) ==> result[a].entry.timestamp >= result[b].entry.timestamp
+//@   ensures #nothing_lost [C06]: forall k int :: 0 <= k && k < len(versions) ==> result[0].entry.timestamp >= old(versions[k].entry.timestamp)
+//@   modifies elems(versions)
+
+// Nil copies are dropped, the rest is ordered newest first; no gathered copy is newer than the winner.
+//@ func (dm *DMap) sanitizeAndSortVersions(versions []*version) []*version
+//@   props C06
+//@   flag termination
+//@   requires #elems: forall k int :: 0 <= k && k < len(versions) ==> versions[k] != nil
+//@   ensures #entries: forall k int :: 0 <= k && k < len(result) ==> result[k] != nil && result[k].entry != nil
+//@   ensures #newest_first [C06]: forall a int, b int :: 0 <= a && a < b && b < len(result) ==> result[a].entry.timestamp >= result[b].entry.timestamp
+//@   ensures #winner_newest [C06]: forall k int :: 0 <= k && k < len(versions) && versions[k].entry != nil ==>
+//@                len(result) > 0 && result[0].entry.timestamp >= versions[k].entry.timestamp
+//@   ensures #bounded: len(result) <= len(versions)
+//@   ensures #input_kept: forall k int :: 0 <= k && k < len(versions) ==> versions[k] == old(versions[k])
+//@   loop 0 invariant #kept: len(sanitized) <= rangeindex + 1 && forall m int :: 0 <= m && m < len(sanitized) ==> sanitized[m] != nil && sanitized[m].entry != nil
+//@   loop 0 invariant #covered: forall k int :: 0 <= k && k <= rangeindex && versions[k].entry != nil ==> exists m int :: 0 <= m && m < len(sanitized) && sanitized[m] == versions[k]
+//@   loop 0 invariant #separate: cap(sanitized) == 0 || fresh(sanitized)
+//@   loop 0 invariant #input: forall k int :: 0 <= k && k < len(versions) ==> versions[k] == old(versions[k])
+
+// Gathering copies talks to other members; only the shape of what comes back is assumed.
+//@ func (dm *DMap) lookupOnOwners(hkey uint64, key string) []*version
+//@   props C05 C06 C09
+//@   trusted
+//@   ensures #shape: len(result) >= 1 && fresh(result) && off(result) == 0 && forall k int :: 0 <= k && k < len(result) ==> result[k] != nil && result[k].host != nil
+//@   modifies nothing
+
+//@ func (dm *DMap) lookupOnReplicas(hkey uint64, key string) []*version
+//@   props C05 C06 C09
+//@   trusted
+//@   ensures #shape: fresh(result) && off(result) == 0 && forall k int :: 0 <= k && k < len(result) ==> result[k] != nil && result[k].host != nil
+//@   modifies nothing
+
+// Read repair pushes the winner to the holders of other versions: it must be given the newest copy.
+//@ func (dm *DMap) readRepair(winner *version, versions []*version)
+//@   props C06
+//@   trusted
+//@   requires #winner_newest [C06]: winner != nil && winner.entry != nil && forall k int :: 0 <= k && k < len(versions) ==>
+//@                versions[k] != nil && (versions[k].entry != nil ==> winner.entry.timestamp >= versions[k].entry.timestamp)
+//@   modifies every(winner.host.ID)
+
+//@ func (dm *DMap) isKeyIdle(hkey uint64) bool
+//@   props C09 C10
+//@   trusted
+//@   flag clock
+//@   modifies EvictedTotal.counter
+
+// A read on the partition owner: enough copies, newest copy, not expired.
+//@ func (dm *DMap) getOnCluster(hkey uint64, key string) (storage.Entry, error)
+//@   props C05 C06 C09
+//@   flag clock
+//@   flag termination
+//@   flag wired 3
+//@   ensures #never_after_deadline [C09]: result.1 == nil ==> result.0 != nil && !deadAt(result.0.ttl, old(now()))
+//@   ensures #err_kind [C05]: result.1 == nil || result.1 == ErrReadQuorum || result.1 == ErrKeyNotFound
+//@   ensures #winner_is_newest [C06] internal: result.1 == nil ==> forall k int :: 0 <= k && k < len(versions) && versions[k].entry != nil ==>
+//@                result.0.timestamp >= versions[k].entry.timestamp
+//@   ensures #read_quorum_met [C05] internal: result.1 == nil ==> len(sorted) >= dm.s.config.ReadQuorum && len(sorted) <= len(versions)
+//@   ensures #too_few_answers [C05] internal: len(versions) < dm.s.config.ReadQuorum ==> result.1 == ErrReadQuorum
+//@   ensures #too_few_copies [C05] internal: len(versions) >= dm.s.config.ReadQuorum && len(sorted) > 0 && len(sorted) < dm.s.config.ReadQuorum ==> result.1 == ErrReadQuorum
+//@   ensures #absent_everywhere [C05] internal: len(versions) >= dm.s.config.ReadQuorum && len(sorted) == 0 ==> result.1 == ErrKeyNotFound
